@@ -6,6 +6,11 @@
           24 = reader's sample count differs from the sum of the file sizes
           25 = C16_excerpts clause fails on the observed excerpts
           26 = C16_get_excerpts clause fails on the observed output
+          27 = C16_data_chunk: the blocks returned by data_chunk on the tuples yielded by chunk_bounds
+               do not satisfy DC_Spec (kept blocks concatenate to the data / each inside its chunk's
+               block / chunk block <= chunk_size)
+          28 = C16_data_chunk_tuple / _pair: data_chunk on a 4- or 2-tuple of non-negative bounds did
+               not return the chunk's rows / the kept rows (the slices in which the property is stated)
           3  = input outside the stated regime (harness bug) *)
 From Coq Require Import ZArith List Lia Bool.
 From PV Require Export Base.PySlice Base.NpSearch C16.Model C16.Spec.
@@ -18,7 +23,9 @@ Inductive input :=
 | InReader (sizes : list Z) (cs : Z)
 | InMtscomp (n : Z) (cb : list Z) (bs : Z)
 | InExcerpts (n k size : Z)
-| InGetExcerpts (n k size : Z).
+| InGetExcerpts (n k size : Z)
+| InDataChunk (n : Z) (is_tuple : bool) (t : list Z) (with_overlap : bool)
+| InChunkedData (n cs ov : Z).
 
 Inductive observed :=
 | ObsChunks (l : list chunk)
@@ -26,6 +33,8 @@ Inductive observed :=
 | ObsReader (bounds : list Z) (ivs : list iv) (nsamples : Z)
 | ObsIvs (l : list iv)
 | ObsData (l : list Z)
+| ObsDc (r : dc_result Z)
+| ObsParts (l : list (part Z))
 | ObsCrash.
 
 Record case := { cid : Z; cin : input; cobs : observed }.
@@ -44,21 +53,27 @@ Definition opt_eqb {A} (eqb : A -> A -> bool) (m : option A) (o : A) : bool :=
 
 Definition flag (code : Z) (ok : bool) : list Z := if ok then [] else [code].
 
-(* greedy decomposition of an increasing index list into runs of consecutive indices of length at
-   most size: the least number of excerpts that can produce it *)
-Fixpoint ge_count (size prev cur : Z) (l : list Z) : option Z :=
-  match l with
-  | [] => Some 0
-  | x :: r => if (x =? prev + 1) && (cur <? size) then ge_count size x (cur + 1) r
-              else if prev <? x then option_map (Z.add 1) (ge_count size x 1 r) else None
+Definition dc_eqb (a b : dc_result Z) : bool :=
+  match a, b with
+  | DcOk x, DcOk y => zlist_eqb x y
+  | DcValueError, DcValueError => true
+  | DcAssertError, DcAssertError => true
+  | _, _ => false
   end.
-Definition getexc_b (n k size : Z) (out : list Z) : bool :=
-  if n <? k * size then zlist_eqb out (zrange 0 (Z.to_nat n))
-  else forallb (fun x => (0 <=? x) && (x <? n)) out &&
-       match out with
-       | [] => true
-       | x :: r => match ge_count size x 1 r with Some c => c + 1 <=? k | None => false end
-       end.
+Definition part_eqb (a b : part Z) : bool :=
+  zlist_eqb (p_whole a) (p_whole b) && zlist_eqb (p_kept a) (p_kept b).
+
+(* clause 28: on a tuple of non-negative bounds the result is stated with the specification's own
+   slices (whole / keep / iv_slice), not with the model's pyslice; other inputs are judged by
+   equality with the model only *)
+Definition dc_tuple_b (n : Z) (is_tuple : bool) (t : list Z) (wo : bool) (r : dc_result Z) : bool :=
+  let iota := zrange 0 (Z.to_nat n) in
+  if negb is_tuple || negb (forallb (fun x => 0 <=? x) t) then true else
+  match t with
+  | [i; j] => dc_eqb r (DcOk (iv_slice iota (mkiv i j)))
+  | [a; b; c; d] => dc_eqb r (DcOk (if wo then whole iota (mk a b c d) else keep iota (mk a b c d)))
+  | _ => true
+  end.
 
 Definition check (c : case) : list Z :=
   match cin c, cobs c with
@@ -107,6 +122,20 @@ Definition check (c : case) : list Z :=
       | ObsData l => flag 1 (opt_eqb zlist_eqb (get_excerpts (zrange 0 (Z.to_nat n)) k size) l) ++
                      flag 26 (getexc_b n k size l)
       | _ => [1; 26]
+      end
+  | InDataChunk n is_tuple t wo, o =>
+      if negb (0 <=? n) then [3] else
+      match o with
+      | ObsDc r => flag 1 (dc_eqb (data_chunk (zrange 0 (Z.to_nat n)) is_tuple t wo) r) ++
+                   flag 28 (dc_tuple_b n is_tuple t wo r)
+      | _ => [1; 28]
+      end
+  | InChunkedData n cs ov, o =>
+      if negb ((0 <=? n) && (0 <=? ov) && (ov <? cs)) then [3] else
+      match o with
+      | ObsParts l => flag 1 (opt_eqb (list_eqb part_eqb) (chunked_data (zrange 0 (Z.to_nat n)) cs ov) l) ++
+                      flag 27 (dc_spec_b n cs l)
+      | _ => [1; 27]
       end
   end.
 
